@@ -122,8 +122,10 @@ class Ctx:
         os.makedirs(evdir, exist_ok=True)
         with open(os.path.join(evdir, self.pid + ".json"), "w") as f:
             json.dump(ev, f, indent=1, sort_keys=True, default=str)
-        for k, (f, n) in self.known_hits.items():
-            print("KNOWN-FINDING: property=%s %s (%s; %d case(s) this run)" % (self.pid, f["what"], k, n))
+        for f in self.findings:        # every listed known finding of this property is reported, with the number of cases met in this run
+            if f.get("status") == "known" and f.get("property") == self.pid:
+                n = self.known_hits.get(f["id"], [f, 0])[1]
+                print("KNOWN-FINDING: property=%s %s (%s; %d case(s) this run)" % (self.pid, f["what"], f["id"], n))
         rc = 0
         if self.violations:
             rdir = os.path.join(VERIF, ".work", "replay-scratch") if os.environ.get("RV_NO_EVIDENCE") else os.path.join(VERIF, "replay")
